@@ -51,6 +51,9 @@ class C17(SimpleProperty):
                 ident = ident + delim + rng.choice(SEG)
             # keep every segment non-empty and never a dot segment
             ident = "/".join(s for s in ident.split("/") if s and s not in (".", "..")) or "x"
+            if delim == ":" and rng.random() < 0.15:
+                # the delimiter at the very end of the last segment, or doubled inside a segment
+                ident = ident + ":" if rng.random() < 0.6 else ident.replace(":", "::", 1) if ":" in ident else ident + "::" + rng.choice(SEG)
             paths.append((p, ident))
         # in 40% of the cases the apps are built first and the converter is extended afterwards: the handlers
         # must ask the live converter
@@ -67,6 +70,12 @@ class C17(SimpleProperty):
         conv = Converter(recs[: len(recs) - late], delimiter=case["delim"])
         fl = get_flask_app(conv).test_client()
         fa = TestClient(get_fastapi_app(conv))
+        if late:
+            # the apps are used before the converter is extended (every request once), so that anything a handler
+            # remembers about a request dates from before the extension
+            for p, i in case["requests"]:
+                fl.get("/" + p + case["delim"] + i)
+                fa.get("/" + p + case["delim"] + i, follow_redirects=False)
         for r in recs[len(recs) - late:]:
             conv.add_record(r)
         out = {"flask": [], "fastapi": [], "expand": []}
